@@ -31,6 +31,7 @@
 #include "upipe/ubuf.h"
 #include "upipe/ubuf_block.h"
 #include "upipe/ubuf_block_mem.h"
+#include "upipe/ubuf_block_common.h"
 #include "upipe/ubuf_pic.h"
 #include "upipe/ubuf_pic_mem.h"
 #include "vsched.h"
@@ -118,8 +119,42 @@ static struct ubuf *bufs[VS_MAXT + 8][16];
 static int bufh[VS_MAXT + 8][16];
 static int nbufs[VS_MAXT + 8];
 static int next_h;
+/* a block manager over caller-owned memory whose buffers cannot be duplicated (UBUF_DUP unhandled): appended
+ * to a block it makes ubuf_dup of the whole block fail AFTER the segments before it were duplicated */
+static uint8_t ext_octets[4];
+static int ext_control(struct ubuf *ubuf, int command, va_list args) { return UBASE_ERR_UNHANDLED; }
+static void ext_free(struct ubuf *ubuf)
+{
+    struct ubuf_block *block = ubuf_block_from_ubuf(ubuf);
+    ubuf_block_common_clean(ubuf);
+    free(block);
+}
+static struct ubuf_mgr ext_mgr = { .refcount = NULL, .signature = UBUF_ALLOC_BLOCK, .ubuf_alloc = NULL,
+                                   .ubuf_control = ext_control, .ubuf_free = ext_free, .ubuf_mgr_control = NULL };
+static struct ubuf *ext_wrap(void)
+{
+    struct ubuf_block *block = malloc(sizeof(struct ubuf_block));
+    assert(block != NULL);
+    struct ubuf *ubuf = ubuf_block_to_ubuf(block);
+    ubuf->mgr = &ext_mgr;
+    ubuf_block_common_init(ubuf, false);
+    ubuf_block_common_set(ubuf, 0, sizeof(ext_octets));
+    ubuf_block_common_set_buffer(ubuf, ext_octets);
+    return ubuf;
+}
+
 static void areas_op(int t, char op)
 {
+    if (op == 'P' || op == 'X') {
+        /* P: a new buffer (a new area) is appended to my first buffer; X: a foreign segment is */
+        if (nbufs[t] == 0) return;
+        struct ubuf *b = op == 'P' ? ubuf_block_alloc(bmgr, 8) : ext_wrap();
+        if (b == NULL) { log_ev2('f', t, 0, 0); return; }
+        int a = op == 'P' ? area_of_ubuf(b) : -1;
+        if (!ubase_check(ubuf_block_append(bufs[t][0], b))) { ubuf_free(b); return; }
+        log_ev2(op == 'P' ? 'p' : 'q', t, bufh[t][0], a);
+        return;
+    }
     if (op == 'M') {
         if (mgrh[t] == NULL) return;
         struct ubuf_mgr *m = mgrh[t];
@@ -141,7 +176,7 @@ static void areas_op(int t, char op)
         if (nbufs[t] == 0) return;
         int from = bufh[t][0];
         struct ubuf *d = ubuf_dup(bufs[t][0]);
-        if (d == NULL) return;
+        if (d == NULL) { log_ev2('e', t, from, 0); return; }
         int h = next_h++;
         log_ev2('d', t, h, from);
         bufh[t][nbufs[t]] = h;
@@ -327,6 +362,9 @@ static bool finish(void *ctx, const uint8_t *sched, int len, bool stuck)
                          e->a >= 0 && e->a < MAXAREA ? area_tab[e->a].u : 0); break;
         case 'f': printf("{\"e\":\"Refused\",\"t\":%d}\n", e->t); break;
         case 'd': printf("{\"e\":\"Dup\",\"t\":%d,\"h\":%d,\"from\":%d}\n", e->t, e->h, e->a); break;
+        case 'p': printf("{\"e\":\"Append\",\"t\":%d,\"h\":%d,\"a\":%d,\"u\":0}\n", e->t, e->h, e->a); break;
+        case 'q': printf("{\"e\":\"Foreign\",\"t\":%d,\"h\":%d}\n", e->t, e->h); break;
+        case 'e': printf("{\"e\":\"DupFailed\",\"t\":%d,\"from\":%d}\n", e->t, e->h); break;
         case 'x': printf("{\"e\":\"Free\",\"t\":%d,\"h\":%d}\n", e->t, e->h); break;
         case 'r': printf("{\"e\":\"Return\",\"t\":%d,\"a\":%d}\n", e->t, e->a); break;
         case 'k': printf("{\"e\":\"AllocDead\",\"t\":%d,\"u\":%d}\n", e->t, e->a); break;
